@@ -248,6 +248,16 @@ func run(c *h.Ctx, cs Case) {
 		return
 	}
 	bound := uint64(memConst + memFactor*inputLen(cs))
+	if alloc > bound && !known && (tg.kind == "bytes" || tg.kind == "string") {
+		// the structural predicate can lose track on a mutated input that is malformed before the hostile head;
+		// the structure-blind form of the same predicate decides then (same root cause, same signature)
+		for _, b := range innerCBOR(cs) {
+			if cbor.DeclaredTooLongAnywhere(b) {
+				known = true
+				c.P.Class("declared-length-by-blind-predicate")
+			}
+		}
+	}
 	if alloc > bound {
 		if known {
 			c.Fail("C09/mem/dagcbor-declared-length", "%s allocated %d MiB for a %d-byte input whose CBOR declares more entries than it has bytes", cs.Target, alloc>>20, inputLen(cs))
